@@ -150,6 +150,18 @@ def seq_enumerated():
     T('write-empty-arg-bytes', "write('['); write(xs); write(']'); writeln(xs); sleep(xs.length);", sig='byte[] xs', xs=0)
     T('write-empty-arg-string', "write('['); write(s); write(']'); writeln(s); write(s is byte[]); sleep(s.length);", sig='string s', s=[0])
     T('write-empty-arg-cbytes', "write('['); write(cs); write(']'); writeln(cs); sleep(cs.length);", sig='const byte[] cs', cs=0)
+    # a loop whose body always leaves is still a loop that may run zero times: what follows it is reachable
+    T('loop-body-always-leaves', "sleep(lf(x)); sleep(lg(y)); write('.');",
+      extra="int lf(int v) { while (v > 3) { return 1; } sleep(v); for (int i = 0; i < v; i += 1) { if (i > 0) { return 2; } else { return 3; } } write('e'); return 4; }\n"
+            "int lg(int v) { int n = 0; for (int k = 0; k < 2; k += 1) { while (v > k) { n += 1; break; } while (v < 0) { return n; } n += 10; } return n; }\n")
+    T('const-false-loops', "while (DBG) { write('d'); } write('a'); for (; 1 > 2;) { write('x'); } write('b'); while (false) { } for (int i = 0; DBG; i += 1) { write('y'); } write('c'); nop(); write('e'); sleep(x);",
+      extra="const bool DBG = false;\nempty nop() { while (DBG) { write('n'); } }\n")
+    T('const-true-loops', "int n = 0; while (ON) { n += 1; if (n > x % 3) { break; } } sleep(n); for (; 2 > 1;) { n += 1; if (n > 4) { break; } } sleep(n); sleep(first(y));",
+      extra="const bool ON = true;\nint first(int v) { for (int i = 0; ON; i += 1) { if (i * i >= v % 10) { return i; } } }\n")
+    # byte / bool globals assigned computed values while their neighbours in the state section hold non-zero data
+    T('byte-global-neighbours', "level = x is byte; sleep(score); lives -= 1; sleep(hi); done = x > 3; write(lives); sleep(score + hi); level = (y + 1) is byte; sleep(score); flag2 = not done; sleep(last); "
+      "level += 3; lives = level; write(level); write(lives); sleep(done is int); sleep(flag2 is int); sleep(score); sleep(hi); sleep(last);",
+      extra="byte level = 1;\nint score = 300;\nbool done = false;\nbyte lives = 3;\nint hi = 77;\nbool flag2 = true;\nint last = 31000;\n")
     # lexical scoping: a local that shadows a global dies with its block, however the block is left
     for ex in ('break', 'continue', 'return'):
         T('shadow-exit-' + ex, "sleep(sh(x)); sleep(g); g += 1; sleep(g);",
@@ -466,6 +478,23 @@ def time_enumerated(tier='quick'):
               extra="const bool KT = true;\nempty !cd() { const bool kl = true; write('d'); !truth_is_defeat(%s); write('e'); }\n" % kexpr)
         T('const-defeat-direct-%s' % h, "try { write('a'); if (x > 9) { !truth_is_defeat(KT); } !truth_is_defeat(false); write('b'); } %s { write('c'); } write('.');" % h, extra="const bool KT = true;\n")
         T('const-defeat-you-%s' % h, "@w(x); write('.');", extra="const bool KT = true;\nempty !cd() { write('d'); !truth_is_defeat(KT); }\nempty @w(int v) { try { if (v > 9) { !cd(); } write('b'); } %s { write('c'); } }\n" % h)
+    # try bodies that always leave (return / break) and whose defeat calls sit inside expressions
+    for h in ('undo', 'stop'):
+        T('try-return-defeat-expr-' + h, "sleep(@q(x)); sleep(@q(y)); write('.');",
+          extra="int !half(int v) { write('h'); !truth_is_defeat(v %% 2 == 1); return v / 2; }\nint @q(int v) { try { return !half(v); } %s { write('s'); } write('a'); return 0 - 1; }\n" % h)
+        T('try-decl-defeat-expr-' + h, "sleep(@q(x)); write('.');",
+          extra="int !half(int v) { write('h'); !truth_is_defeat(v %% 2 == 1); return v / 2; }\nint @q(int v) { try { int r = !half(v); return r + 1; } %s { write('s'); } write('a'); return 0 - 1; }\n" % h)
+        T('try-break-defeat-expr-' + h, "int v = x % 4; for (int i = 0; i < 3; i += 1) { try { int r = !half(v); write('k'); break; } " + h + " { write('s'); } write('c'); v += 1; } sleep(v); write('.');",
+          extra="int !half(int v) { write('h'); !truth_is_defeat(v % 2 == 1); return v / 2; }\n")
+        T('try-two-callee-defeats-' + h, "for (int i = 0; i < 3; i += 1) { try { write('t'); !chk(x + i); write('n'); !chk(y + i); write('m'); } " + h + " { write('s'); } } @more(x); write('.');",
+          extra="empty !chk(int v) { write('c'); !truth_is_defeat(v % 2 == 0); }\nempty @more(int v) { try { !chk(v); !chk(v + 1); write('n'); } " + h + " { write('S'); } try { !chk(v + 1); write('N'); } " + h + " { write('T'); } }\n")
+    # several try/stop blocks in one function, another try/stop function running in between, defeat raised inside callees
+    T('two-try-stop-one-function', "sleep(@two(x, y)); @other(x); sleep(@two(y, x)); write('.');",
+      extra="empty !dd(int v) { write('d'); !truth_is_defeat(v > 0); }\nempty @other(int v) { try { !dd(v); write('o'); } stop { write('O'); } }\n"
+            "int @two(int a, int b) { int r = 0; try { !dd(a); r += 1; } stop { write('1'); r += 10; } @other(b); try { !dd(b); r += 2; } stop { write('2'); r += 20; } if (a > 5) { try { !dd(a - 6); r += 4; } stop { r += 40; } } return r; }\n")
+    T('try-stop-nested-callee-frames', "sleep(@deep(x, y)); sleep(@deep(y, x)); write('.');",
+      extra="empty !dd(int v) { int[] pad = [v, v]; !truth_is_defeat(pad[1] > 0); }\nempty !d2(int v) { int q = v * 2; !dd(q - v); write('k'); }\n"
+            "int @deep(int a, int b) { int keep = a * 3; try { !d2(b); !d2(a); return keep + 1; } stop { write('s'); } try { !d2(b - 1); return keep + 2; } stop { return keep + 3; } }\n")
     # preempt varieties
     T('preempt-two', "try { preempt { write('1'); x = 0; } preempt { write('2'); y = 0; } !truth_is_defeat(x > 0 or y > 0); write('n'); } undo { write('u'); } write('.');")
     T('preempt-nested', "try { preempt { write('1'); preempt { write('2'); y = 0; } x = 0; } !truth_is_defeat(x > 0); !truth_is_defeat(y > 0); write('n'); } undo { write('u'); } write('.');")
@@ -796,6 +825,12 @@ def fault_templates():
     T('nonlocal-preempt-loop', "empty !baba(int v) { for (int i = 0; i < v % 3; i += 1) { preempt { write('P'); } } write('b'); }\nempty @is_you(int a, int b) { try { write('t'); !baba(a); !truth_is_defeat(b > 0); write('n'); } undo { write('u'); } write('q'); }\n")
     T('nonlocal-preempt-stop', "empty !baba(int v) { preempt { write('P'); } write('b'); }\nempty @is_you(int a, int b) { try { write('t'); !baba(a); !truth_is_defeat(b > 0); write('n'); } stop { write('s'); } write('q'); }\n")
     T('nonlocal-preempt-nested', "empty !inner(int v) { preempt { write('P'); } write('i'); }\nempty !outer(int v) { !inner(v); !truth_is_defeat(v > 1); write('o'); }\nempty @is_you(int a, int b) { try { write('t'); !outer(a); write('n'); } undo { write('u'); } write('q'); }\n")
+    # return protection belongs to preemptive defeat functions only: other functions (generated before or after them) return into
+    # unavoidable defeat without a fault
+    T('nonlocal-preempt-other-after', "empty !baba(int v) { if (v > 0) { preempt { write('P'); } } write('b'); }\nint plain(int v) { write('f'); return v + 1; }\nempty !plaind(int v) { write('g'); }\n"
+      "empty @is_you(int a, int b) { try { write('t'); !baba(a); int r = plain(b); !plaind(r); !truth_is_defeat(r > 1); write('n'); } undo { write('u'); } write('q'); }\n")
+    T('nonlocal-preempt-other-before', "int plain(int v) { write('f'); return v + 1; }\nempty !baba(int v) { if (v > 0) { preempt { write('P'); } } write('b'); }\n"
+      "empty @is_you(int a, int b) { try { write('t'); int r = plain(b); !baba(a); r = plain(r); !truth_is_defeat(r > 2); write('n'); } undo { write('u'); } write('q'); }\n")
     T('nonlocal-preempt-value', "int !val(int v) { preempt { return 1; } return v; }\nempty @is_you(int a, int b) { try { sleep(!val(a)); !truth_is_defeat(b > 0); write('n'); } undo { write('u'); } write('q'); }\n")
     return out
 
@@ -828,6 +863,16 @@ def scope_templates():
     T('call-in-literal', "int[] keep = [7, 8]; int[] a = [two(x), two(y), keep[0]]; sleep(a[0] + a[1] + a[2]);", extra="int two(int v) { int[] a = [v, v]; return a[1] * 2; }\n")
     T('passed-array', "int[] a = [x, y, 3]; for (int i = 0; i < y % 3; i += 1) { upd(a, i); } sleep(a[0] + a[1] + a[2]);", extra="empty upd(int[] v, int i) { int[] tmp = [v[i], 1]; v[i] = tmp[0] + tmp[1]; }\n")
     T('while-vla-grow', "int n = 0; while (n < y % 4) { int a[n + 1]; a[n] = n; n += 1; sleep(a[n - 1]); } sleep(n);")
+    # a literal AND a dynamically sized array live in the body when the exit is taken
+    for ex in ('break', 'continue', 'return 7'):
+        T('mixed-static-dynamic-' + ex.split()[0], "sleep(f(x)); sleep(f(y)); sleep(f(x + 1));",
+          extra="int f(int v) { int n = 0; for (int i = 0; i < 3; i += 1) { int[] lit = [i, v]; int scratch[i + 1]; scratch[i] = lit[1]; n += scratch[i]; if (i == v %% 3) { %s; } byte[] more = ['m', 'n', 'o']; n += more[1]; } return n; }\n" % ex)
+    T('mixed-dynamic-static-block', "sleep(f(x)); sleep(f(y));", extra="int f(int v) { int n = v % 3 + 1; { int a[n]; int[] b = [v, 2]; bool c[n + 8]; a[n - 1] = b[0]; c[n] = true; if (v > 4) { return a[n - 1]; } } { string[] s = [\"a\"]; int d[n]; d[0] = 5; return d[0] + n; } }\n")
+    # the body of a loop ends in a try whose body always leaves and whose defeat call sits in an expression
+    for h in ('undo', 'stop'):
+        T('loop-array-try-return-' + h, "sleep(@f(x)); sleep(@f(y)); write('.');",
+          extra="int !g(const int[] a, int i) { !truth_is_defeat(a[i %% 2] > 5); return a[0]; }\nint @f(int v) { for (int i = 0; i < 3; i += 1) { int[] a = [v + i, i]; try { int r = !g(a, i); return r; } %s { write('h'); } } return 0 - 1; }\n" % h)
+        T('loop-array-try-break-' + h, "for (int i = 0; i < 3; i += 1) { byte[] a = ['a', x is byte]; try { !truth_is_defeat(a[1] > 'a' + i); break; } %s { write('h'); } } int[] z = [1, 2]; sleep(z[1]); write('.');" % h)
     T('return-expr-allocates', "sleep(f(x)); sleep(f(y));", extra="int pick(const int[] a, const int[] b, int i) { return a[i] * 100 + b[i]; }\nint f(int v) { int[] a = [v, v + 1, v + 2]; return pick(a, [v + 7, 8, 9], 1) + a[2]; }\n")
     T('return-expr-callee-array', "sleep(f(x));", extra="int g(int v) { int[] t = [v * 2, 77, 78]; return t[0] + t[2]; }\nint f(int v) { int[] a = [v, v + 1, v + 2]; byte[] b = ['a', 'b']; return g(v) + a[1] + a[2] * b[1]; }\n")
     T('return-expr-literal-index', "sleep(f(x, y));", extra="int f(int v, int w) { int[] a = [v, w]; if (v > w) { return [w, v, 3][1] + a[0]; } bool[] c = [v > 0, w > 0]; return [9, 8][0] * a[1] + (c[1] is int); }\n")
@@ -851,6 +896,19 @@ def alloc_templates():
     T('lit-nested-call', 'int[] a = [x, x, x, x, f6(y, y, y, y, y, y)]; sleep(a[1]); sleep(a[4]);', extra='int f6(int a, int b, int c, int d, int e, int g) { return a + g; }\n')
     T('lit-elem-temps', 'int[] a = [x + y * 2, (x - y) * (x + y), h(x, y) + h(y, x)]; sleep(a[0]); sleep(a[1]); sleep(a[2]);', extra='int h(int a, int b) { return a - b; }\n')
     T('lit-bool-calls', 'bool[] a = [p(x), true, p(y), false, p(x + y), true, true, false, p(1)]; sleep(a[0] is int); sleep(a[4] is int);', extra='bool p(int v) { int[] t = [v, v]; return t[1] > 0; }\n')
+    T('lit-elems-callee-arrays', 'int[] a = [s3(x, 2, 3), s3(4, y, 6), 7]; sleep(a[0]); sleep(a[1]); sleep(a[2]); byte[] b = [tag(x), tag(y), 33]; write(b);',
+      extra="int s3(int a, int b, int c) { int[] t = [a, b, c]; return t[0] + t[1] + t[2]; }\nbyte tag(int v) { byte[] t = ['o', 'k', v is byte]; return t[2]; }\n")
+    T('repeat-array-calls', "int canary = 1000; int s = 0; for (int i = 0; i < 12; i += 1) { s += mark(x, i); } sleep(s); sleep(canary); write(tagb(y)); write(tagb(x)); sleep(canary);",
+      extra="int mark(int v, int k) { int[] a = [v, k, v, k]; if (k > 20) { return 0; } return a[0] + a[3]; }\nbyte tagb(int v) { byte[] t = [v is byte, 'q', 'r']; for (int i = 0; i < 2; i += 1) { if (t[i] == 'q') { return t[0]; } } return t[2]; }\n")
+    T('lit-nested-literal-arg', 'int[] a = [first([x, 1]), 20, 30, 40, ((x + 1) * (y + 2)) - ((x - 3) * (y - 4)) + h(x, y) * h(y, x)]; sleep(a[0]); sleep(a[1]); sleep(a[2]); sleep(a[3]); sleep(a[4]);',
+      extra='int first(const int[] v) { return v[0]; }\nint h(int a, int b) { return a - b; }\n')
+    # ... and a later element that is the high-water mark of the whole function (deep right-nested product over non-constant globals)
+    T('lit-nested-literal-arg-deep', 'int[] a = [first([x, 1]), 20, 30, 40, (ga+gb)*((gc+gd)*((ge+gf)*((gg+gh)*((ga+gc)*((gb+gd)*((gc+ge)*((gd+gf)*((ge+gg)*((gf+gh)*((ga+gd)*(ga+x)))))))))))]; '
+      'sleep(a[0]); sleep(a[1]); sleep(a[2]); sleep(a[3]); sleep(a[4]);',
+      extra='int first(const int[] v) { return v[0]; }\nint ga = 1; int gb = 2; int gc = 3; int gd = 4; int ge = 5; int gf = 6; int gg = 7; int gh = 8;\n')
+    T('lit-nested-literal-mid-deep', "byte[] a = ['s', lastb([x is byte, 'q']), 't', (((((((gb + y) * 2 + gb) * 3 + gb) * 5 + gb) * 7 + gb) * 11 + (gb * (gb + (gb * (gb + (gb * (gb + (gb * (gb + x))))))))) is byte), 'u']; write(a);",
+      extra='byte lastb(const byte[] v) { return v[v.length - 1]; }\nint gb = 2;\n')
+    T('lit-nested-literal-arg-bytes', "byte[] a = [lastb(['p', x is byte]), 'b', 'c', lastb([1, 2, (x + y) is byte])]; write(a);", extra='byte lastb(const byte[] v) { return v[v.length - 1]; }\n')
     for el in ('int', 'byte', 'bool', 'string'):
         T('vla-' + el, "int n = x; %s v[n]; write('k'); sleep(v.length);" % el)
         T('vla-after-lit-' + el, "int[] a = [1, 2, 3]; %s v[x]; write('k'); sleep(a[2]); sleep(v.length);" % el)
